@@ -1624,12 +1624,15 @@ def selected_by_type(fn: ast.AST, target_src: str, class_name: str) -> Optional[
         if isinstance(t, ast.Call) and call_name(t) == "isinstance" and src(t.args[0]) == v.generators[0].target.id and src(t.args[1]).split(".")[-1] == class_name:
             return src(v.generators[0].iter)
         return None
-    if isinstance(v, ast.Name):
-        tmp = v.id
+    if isinstance(v, ast.Name) or src(v) in ("[]", "list()"):
+        # collected in a local that is assigned to the target afterwards, or in the target itself after it was set to the empty list
+        in_place = not isinstance(v, ast.Name)
+        tmp = target_src if in_place else v.id
         inits = [st for st in walk_no_nested(fn) if isinstance(st, ast.Assign) and len(st.targets) == 1 and src(st.targets[0]) == tmp]
         apps = [c for c in walk_no_nested(fn) if isinstance(c, ast.Call) and call_name(c) in ("append", "extend", "insert", "remove", "pop", "clear", "sort", "reverse")
                 and src(c.func.value) == tmp]
-        if len(inits) == 1 and src(inits[0].value) in ("[]", "list()") and len(apps) == 1 and call_name(apps[0]) == "append" and ordk(inits[0]) < ordk(apps[0]) < ordk(assigned[0]):
+        if len(inits) == 1 and src(inits[0].value) in ("[]", "list()") and len(apps) == 1 and call_name(apps[0]) == "append" and ordk(inits[0]) < ordk(apps[0]) \
+                and (in_place or ordk(apps[0]) < ordk(assigned[0])):
             lps = enclosing(fn, apps[0], (ast.For,), pm)
             if len(lps) == 1 and isinstance(lps[0].target, ast.Name) and src(apps[0].args[0]) == lps[0].target.id \
                     and not any(isinstance(x, (ast.Break, ast.Continue)) for x in ast.walk(lps[0])):
